@@ -61,7 +61,7 @@ Contract(RQ, 'Reply.__init__', {'self': TObj('Reply'), 'code': TOpt(TInt()), 'te
 # parse of ONE line (what read_reply feeds it): the reply is complete exactly when the line is "NNN<space>..."
 LS = 'data.splitlines(False)'
 CODE_LINE = '"[0-9]{3} [^\\\\r\\\\n]*"'
-Contract(RQ, 'Reply.parse', {'self': TObj('Reply'), 'data': TBytes()}, prop='C17',
+Contract(RQ, 'Reply.parse', {'self': TObj('Reply'), 'data': TBytes()}, prop='C17/C09',
          requires=['self.code is None'],
          modifies=['self.code', 'self.text'],
          loops={0: {'invariant': [
@@ -72,10 +72,10 @@ Contract(RQ, 'Reply.parse', {'self': TObj('Reply'), 'data': TBytes()}, prop='C17
          ensures=[('complete-iff-code-line', 'implies(len(%s) == 1, (self.code is not None) == in_re(%s[0], %s))' % (LS, LS, CODE_LINE)),
                   ('code-value', 'implies(len(%s) == 1 and self.code is not None, self.code == py_int(%s[0][0:3]))' % (LS, LS)),
                   ('text-with-code', 'implies(self.code is not None, self.text is not None)')],
-         raises={'AssertionError': ['len(%s) != 1' % LS]}, observe=['data'], replay='ftp:replay_reply_parse',
+         raises={'ProtocolError': []}, observe=['data'], replay='ftp:replay_reply_parse',
          note='stated over the line list data.splitlines(False) (a clean line gives a one-element list: library contract). A line with an inner '
-              'bare CR is split into several lines; two code lines then trip `assert self.code is None` (a C09 matter)')
-Contract(ST, 'ControlStream.read_reply', CS, ret=TObj('Reply'), prop='C17',
+              'bare CR is split into several lines; a second code line is a ProtocolError (was an assert: fixed under C09)')
+Contract(ST, 'ControlStream.read_reply', CS, ret=TObj('Reply'), prop='C17/C09',
          modifies=['self._connection.wire_in', 'self._data_event_dispatcher.notified_in', 'self.g_replies_read', 'self.g_last_reply', 'self.g_last_reply_time', 'GHOST_CLOCK.t'],
          ghost_update=[('self.g_replies_read', 'old(self.g_replies_read) + 1'), ('self.g_last_reply', 'result'),
                        ('GHOST_CLOCK.t', 'old(GHOST_CLOCK.t) + 1'), ('self.g_last_reply_time', 'old(GHOST_CLOCK.t) + 1')],
@@ -89,8 +89,7 @@ Contract(ST, 'ControlStream.read_reply', CS, ret=TObj('Reply'), prop='C17',
                   ('notified-what-was-read', 'self._data_event_dispatcher.notified_in[len(old(self._data_event_dispatcher.notified_in)):] == self._connection.wire_in[len(old(self._connection.wire_in)):]'),
                   ('counted', 'self.g_replies_read == old(self.g_replies_read) + 1 and self.g_last_reply == result'),
                   ('clock', 'GHOST_CLOCK.t == old(GHOST_CLOCK.t) + 1 and self.g_last_reply_time == GHOST_CLOCK.t')],
-         raises={'NetworkError': [], 'ValueError': [], 'AssertionError': []},
-         note='ValueError (over-long line) escaping here is a C09 matter; for C17 only the assembly is claimed')
+         raises={'NetworkError': [], 'ProtocolError': []}, replay='ftp:replay_hostile_reply')
 
 # ---- transfer completion ---------------------------------------------------------------------------------------------------
 lib.MODULES.add('ReplyCodes')
@@ -116,28 +115,28 @@ Assumed(ST, 'DataStream.read_file', {'self': TObj('DataStream'), 'file': TAny()}
 Assumed(ST, 'DataStream.close', {'self': TObj('DataStream')}, modifies=['self.g_closed'], ensures=['self.g_closed'], raises={})
 CMD = {'self': TObj('Commander')}
 CSR = 'self._control_stream'
-Contract(CM, 'Commander.read_stream', dict(CMD, file=TAny(), data_stream=TObj('DataStream')), ret=TObj('Reply'), prop='C17',
+Contract(CM, 'Commander.read_stream', dict(CMD, file=TAny(), data_stream=TObj('DataStream')), ret=TObj('Reply'), prop='C17/C09',
          modifies=['data_stream.g_eof_seen', 'data_stream.g_eof_time', 'GHOST_CLOCK.t', '%s.g_last_reply_time' % CSR, 'data_stream.g_closed', '%s.g_replies_read' % CSR, '%s.g_last_reply' % CSR, '%s._connection.wire_in' % CSR,
                    '%s._data_event_dispatcher.notified_in' % CSR],
          ensures=[('data-eof-first', 'data_stream.g_eof_seen and data_stream.g_eof_time < %s.g_last_reply_time' % CSR),
                   ('server-confirmed', 'result.code == 226'),
                   ('reply-was-read', '%s.g_replies_read == old(%s.g_replies_read) + 1 and result == %s.g_last_reply' % (CSR, CSR, CSR))],
-         raises={'NetworkError': [], 'FTPServerError': [], 'ValueError': [], 'AssertionError': []})
-Contract(CM, 'Commander.begin_stream', dict(CMD, command=TObj('Command')), ret=TObj('Reply'), prop='C17',
+         raises={'NetworkError': [], 'FTPServerError': [], 'ProtocolError': []})
+Contract(CM, 'Commander.begin_stream', dict(CMD, command=TObj('Command')), ret=TObj('Reply'), prop='C17/C09',
          modifies=['GHOST_CLOCK.t', '%s.g_last_reply_time' % CSR, '%s.g_replies_read' % CSR, '%s.g_last_reply' % CSR, '%s._connection.wire_in' % CSR, '%s._connection.wire_out' % CSR,
                    '%s._data_event_dispatcher.notified_in' % CSR, '%s._data_event_dispatcher.notified_out' % CSR],
          ensures=[('accepted', 'result.code == 150 or result.code == 125')],
-         raises={'NetworkError': [], 'FTPServerError': [], 'ProtocolError': [], 'ValueError': [], 'AssertionError': []})
+         raises={'NetworkError': [], 'FTPServerError': [], 'ProtocolError': []})
 
 # ---- the remaining command sequences: each command goes through write_command (one line), each reply through read_reply -------------
 CSM = ['GHOST_CLOCK.t', '%s.g_last_reply_time' % CSR, '%s.g_replies_read' % CSR, '%s.g_last_reply' % CSR, '%s._connection.wire_in' % CSR, '%s._connection.wire_out' % CSR,
        '%s._data_event_dispatcher.notified_in' % CSR, '%s._data_event_dispatcher.notified_out' % CSR]
-ERR = {'NetworkError': [], 'FTPServerError': [], 'ProtocolError': [], 'ValueError': [], 'AssertionError': []}
-Contract(CM, 'Commander.read_welcome_message', CMD, prop='C17', modifies=CSM, ensures=[], raises=dict(ERR))
-Contract(CM, 'Commander.login', dict(CMD, username=TStr(), password=TStr()), prop='C17', modifies=CSM, ensures=[], raises=dict(ERR))
-Contract(CM, 'Commander.passive_mode', CMD, ret=TTuple(TStr(), TInt()), prop='C17', modifies=CSM, ensures=[('port', 'result[1] >= 0')], raises=dict(ERR))
-Contract(CM, 'Commander.size', dict(CMD, filename=TStr()), ret=TOpt(TInt()), prop='C17', modifies=CSM, ensures=[], raises=dict(ERR))
-Contract(CM, 'Commander.restart', dict(CMD, offset=TInt()), prop='C17', modifies=CSM, requires=['offset >= 0'], ensures=[], raises=dict(ERR))
-Contract('wpull/protocol/ftp/util.py', 'parse_address', {'text': TStr()}, ret=TTuple(TStr(), TInt()), prop='C17',
+ERR = {'NetworkError': [], 'FTPServerError': [], 'ProtocolError': []}
+Contract(CM, 'Commander.read_welcome_message', CMD, prop='C17/C09', modifies=CSM, ensures=[], raises=dict(ERR))
+Contract(CM, 'Commander.login', dict(CMD, username=TStr(), password=TStr()), prop='C17/C09', modifies=CSM, ensures=[], raises=dict(ERR))
+Contract(CM, 'Commander.passive_mode', CMD, ret=TTuple(TStr(), TInt()), prop='C17/C09', modifies=CSM, ensures=[('port', 'result[1] >= 0')], raises=dict(ERR))
+Contract(CM, 'Commander.size', dict(CMD, filename=TStr()), ret=TOpt(TInt()), prop='C17/C09', modifies=CSM, ensures=[], raises=dict(ERR))
+Contract(CM, 'Commander.restart', dict(CMD, offset=TInt()), prop='C17/C09', modifies=CSM, requires=['offset >= 0'], ensures=[], raises=dict(ERR))
+Contract('wpull/protocol/ftp/util.py', 'parse_address', {'text': TStr()}, ret=TTuple(TStr(), TInt()), prop='C17/C09',
          ensures=[('port', 'result[1] >= 0')], raises={'ValueError': []})
 lib.MODFUNCS['wpull.protocol.ftp.util.parse_address'] = lambda ex, st, node, t: ex.call(CONTRACTS['parse_address'], [t], {}, st, node)
